@@ -131,3 +131,26 @@ func (r *Raft) VerifState() VerifStateSnapshot {
 	}
 	return s
 }
+
+// VerifForceRespond resolves a future that the library left unanswered, so that a
+// harness goroutine blocked in Error() can exit. Reports whether f was a known
+// deferred future type. Only for harness clean-up after the fact has been recorded.
+func VerifForceRespond(f Future, err error) bool {
+	switch x := f.(type) {
+	case *logFuture:
+		x.respond(err)
+	case *configurationChangeFuture:
+		x.respond(err)
+	case *verifyFuture:
+		x.respond(err)
+	case *leadershipTransferFuture:
+		x.respond(err)
+	case *userSnapshotFuture:
+		x.respond(err)
+	case *bootstrapFuture:
+		x.respond(err)
+	default:
+		return false
+	}
+	return true
+}
